@@ -105,6 +105,12 @@ def _child(spec, script, args, cwd, stdin_fd, out_fd, err_fd, trace_fd, plan, en
             resource.setrlimit(resource.RLIMIT_NOFILE,
                                (plan["nofile"], resource.getrlimit(resource.RLIMIT_NOFILE)[1]))
         sys.argv = [os.path.join(shim.repo_dir, script)] + list(args)
+        # the command gets the interpreter's default recursion depth (1000 frames) on top of the
+        # harness frames it is started from (Hypothesis raises the limit of the calling process)
+        depth, fr = 0, sys._getframe()
+        while fr is not None:
+            depth, fr = depth + 1, fr.f_back
+        sys.setrecursionlimit(1000 + depth)
         signal.alarm(int(plan.get("alarm", 30)) if plan else 30)
         opsim.arm(plan, trace_fd)
         try:
